@@ -994,9 +994,23 @@ class Interp:
                     self.assign(e, AOpaque(v.what), env)
                 return
             seq = v.items if isinstance(v, AList) else v
-            if isinstance(seq, (tuple, list)) and len(seq) == len(t.elts):
+            if isinstance(seq, ABytes):
+                seq = [self.byte_to_int(b) for b in seq.items]
+            stars = [i for i, e in enumerate(t.elts) if isinstance(e, ast.Starred)]
+            if isinstance(seq, (tuple, list)) and len(stars) == 1 and len(seq) >= len(t.elts) - 1:
+                # a, *rest, z = seq
+                i = stars[0]
+                tail = len(t.elts) - i - 1
+                for e, x in zip(t.elts[:i], seq[:i]):
+                    self.assign(e, x, env)
+                self.assign(t.elts[i].value, AList(list(seq[i:len(seq) - tail])), env)
+                for e, x in zip(t.elts[i + 1:], seq[len(seq) - tail:]):
+                    self.assign(e, x, env)
+            elif isinstance(seq, (tuple, list)) and not stars and len(seq) == len(t.elts):
                 for e, x in zip(t.elts, seq):
                     self.assign(e, x, env)
+            elif isinstance(seq, (tuple, list)) and not stars:
+                raise PyError('ValueError', getattr(t, 'lineno', 0))
             else:
                 raise Unknown('tuple unpack')
         else:
